@@ -407,11 +407,17 @@ func (cc *Conn) doInternal(req *pool.Message) (*pool.Message, error) {
 	}
 
 	respChan := make(chan *pool.Message, 1)
-	if _, loaded := cc.tokenHandlerContainer.LoadOrStore(token.Hash(), func(_ *responsewriter.ResponseWriter[*Conn], r *pool.Message) {
+	if _, loaded := cc.tokenHandlerContainer.LoadOrStore(token.Hash(), func(w *responsewriter.ResponseWriter[*Conn], r *pool.Message) {
 		r.Hijack()
 		select {
 		case respChan <- r:
 		default:
+		}
+		// A response is an implicit acknowledgement of the confirmable request (RFC 7252 5.2.2): when it
+		// overtakes the empty ACK, or the ACK is lost, stop waiting for (and retransmitting for) the ACK.
+		if elem, ok := cc.midHandlerContainer.LoadAndDelete(req.MessageID()); ok {
+			elem.ReleaseMessage(cc)
+			elem.handler(w, r)
 		}
 	}); loaded {
 		return nil, fmt.Errorf("cannot add token(%v) handler: %w", token, coapErrors.ErrKeyAlreadyExists)
